@@ -46,10 +46,9 @@ func (avd EthAccountVerificationDecorator) AnteHandle(
 	simulate bool,
 	next sdk.AnteHandler,
 ) (newCtx sdk.Context, err error) {
-	if !ctx.IsCheckTx() {
-		return next(ctx, tx, simulate)
-	}
-
+	// the balance is verified in every mode: a block may carry a transaction that never passed this node's
+	// CheckTx, and a sender's balance can have changed since it did. skipping the check outside CheckTx
+	// admitted a transaction whose cost exceeds the balance; it then failed in the EVM and was charged.
 	for i, msg := range tx.GetMsgs() {
 		msgEthTx, ok := msg.(*evmtypes.MsgEthereumTx)
 		if !ok {
